@@ -612,7 +612,7 @@ func (e *Explorer) concretize(x sym, n int) int {
 }
 
 var identRe = regexp.MustCompile(`[A-Za-z_][A-Za-z0-9_.$]*`)
-var eventRe = regexp.MustCompile(`\(event ([A-Za-z0-9_.\-]+)\)`)
+var eventRe = regexp.MustCompile(`\(event ([A-Za-z0-9_.:\-]+)\)`)
 
 // sigTerm instantiates a known-finding signature on the current path;
 // ok=false if it refers to a variable that is not declared on this path.
